@@ -234,6 +234,9 @@ fn api_from(s: &str) -> Api {
 }
 
 pub fn replay(case: &Value) -> Result<String, String> {
+    if let Some(k) = case["reentrant_fail_at"].as_u64() {
+        return super::c07::reentrant_fault(&kvs_from(&case["kvs"]), k as usize, case["cap"].as_u64().unwrap() as usize).map(|_| "Err(Io), no panic".into());
+    }
     if let Some(k) = case["burst"].as_u64() {
         let kvs = kvs_from(&case["kvs"]);
         let r = c07::reference(&kvs)?;
@@ -254,7 +257,7 @@ pub fn plan(tier: Tier) -> Plan {
     let _ = probe(); // built here, on the main thread, before any fault is injected
     let mut p = Plan::new("C11", "fault_enumeration");
     let thorough = tier.thorough();
-    p.rule = "for each input (the C07 list - every emission site: header, each node form, index table, count byte, footer, checksum, flush - plus every subset of U_ab2 as map and, from 3 keys, as set; a ten-key set and a 40-way fan-out set; a 9000-byte key followed by other keys, with a sample of the call indices); every input also through sinks that answer with bursts of 15..300 Interrupted results (must finish with every byte); W = measured number of sink calls of the fault-free run; for every call index 0..W (writes and the final flush), every failure kind {Err(Other), Err(BrokenPipe), Err(PermissionDenied), Ok(0); for flush also Err(Interrupted)}, single and persistent, through MapBuilder/SetBuilder/raw::Builder (into_inner and finish) with single inserts and with the whole history as one extend_iter / extend_stream call, and additionally with one benign deviation (every short write / Interrupted at every earlier call) before the fault: the API call during which the failing sink call happens must return Err(Io); no panic; no Ok from a call that saw the fault; accepted bytes stay a prefix of the fault-free output; bytes_written() equals the accepted bytes also after the failed call; and builds of the same input and of a probe input with other wide nodes on the same thread after the failed build give the fault-free bytes; for inputs of more than 5 keys a short write inside every block write followed by a fault at the next call. non-trivial = every injected fault (all distinct by index x kind x mode x api)".into();
+    p.rule = "[also: a sink that uses the library on the same thread inside every write() and refuses sink call k, for every k (with and without short writes before): Err(Io), no panic, no success] for each input (the C07 list - every emission site: header, each node form, index table, count byte, footer, checksum, flush - plus every subset of U_ab2 as map and, from 3 keys, as set; a ten-key set and a 40-way fan-out set; a 9000-byte key followed by other keys, with a sample of the call indices); every input also through sinks that answer with bursts of 15..300 Interrupted results (must finish with every byte); W = measured number of sink calls of the fault-free run; for every call index 0..W (writes and the final flush), every failure kind {Err(Other), Err(BrokenPipe), Err(PermissionDenied), Ok(0); for flush also Err(Interrupted)}, single and persistent, through MapBuilder/SetBuilder/raw::Builder (into_inner and finish) with single inserts and with the whole history as one extend_iter / extend_stream call, and additionally with one benign deviation (every short write / Interrupted at every earlier call) before the fault: the API call during which the failing sink call happens must return Err(Io); no panic; no Ok from a call that saw the fault; accepted bytes stay a prefix of the fault-free output; bytes_written() equals the accepted bytes also after the failed call; and builds of the same input and of a probe input with other wide nodes on the same thread after the failed build give the fault-free bytes; for inputs of more than 5 keys a short write inside every block write followed by a fault at the next call. non-trivial = every injected fault (all distinct by index x kind x mode x api)".into();
     p.assumptions = vec![
         "the caller stops at the first Err (as with `?`); behaviour of a builder that is used after it returned an error is not asserted".into(),
         "Ok(0) is only injected into write calls, never into flush".into(),
@@ -388,6 +391,28 @@ pub fn plan(tier: Tier) -> Plan {
                             }
                         }
                     }
+                }
+            }
+        }));
+    }
+    // a sink that uses the library on the same thread inside write() and refuses call k
+    for (name, kvs) in super::c07::inputs() {
+        p.units.push(unit("re-entrant-sink-refusing-every-call-index", format!("re-entrant {}", name), move |st, rep| {
+            for cap in [2usize, 4096] {
+                let mut k = 0;
+                loop {
+                    st.evals += 1;
+                    st.states += 1;
+                    st.count("reentrant_fault_runs", 1);
+                    match super::c07::reentrant_fault(&kvs, k, cap) {
+                        Ok(true) => k += 1 + k / 40,
+                        Ok(false) => break,
+                        Err(msg) => {
+                            rep.violation(format!("{} re-entrant sink refusing call {} cap {}", name, k + 1, cap), msg, json!({"reentrant_fail_at": k, "cap": cap, "kvs": kvs_json(&kvs)}));
+                            break;
+                        }
+                    }
+                    if k > 3000 { break; }
                 }
             }
         }));
